@@ -355,6 +355,7 @@ Proof.
   intros H. unfold handle_future_votes.
   destruct (if vm_h m =? _ then _ else _) as [keys|]; [|intros E; inversion E; subst; exact H].
   destruct keys; [intros E; inversion E; subst; exact H|].
+  destruct (negb (bytes_eqb _ _)); [intros E; inversion E; subst; exact H|].
   destruct (match coll_of _ _ with Some c => c | None => _ end) as [spkh stored].
   destruct (fold_left _ _ _) as [[full' allv] inc].
   destruct (negb allv); [intros E; inversion E; subst; exact H|].
